@@ -120,6 +120,36 @@ class Fault(Exception):
     """injected handler fault"""
 
 
+class HandlerAbort(BaseException):
+    """injected handler fault that is not derived from Exception (like SystemExit / KeyboardInterrupt)"""
+
+
+class OddError(Exception):
+    """injected handler fault whose str() and repr() are unusual"""
+
+    def __str__(self):
+        return "{self.x} %s %d {0} \u20ac\n\x00"
+
+
+def make_fault(kind, seq):
+    """the exception a failing handler raises; kind selects its class / arguments"""
+    if kind == "noargs":
+        return RuntimeError()
+    if kind == "stopiteration":
+        return StopIteration()
+    if kind == "assert":
+        return AssertionError()
+    if kind == "keyerror":
+        return KeyError(seq)
+    if kind == "odd-message":
+        return OddError()
+    if kind == "non-str-arg":
+        return ValueError(("tuple", seq), None)
+    if kind == "base":
+        return HandlerAbort("injected abort in event %d" % seq)
+    return Fault("injected fault in event %d" % seq)
+
+
 def make_model_class():
     from pydsol.core.model import DSOLModel
     from pydsol.core.simevent import SimEvent
@@ -183,7 +213,7 @@ def make_model_class():
                 self.reached.set()
                 self.gate.wait(LIVENESS_S)
             if seq in self.faults or (len(self.trace) - 1) in self.fault_idx:
-                raise Fault("injected fault in event %d" % seq)
+                raise make_fault(self.prog.get("fault_kind", "msg"), seq)
 
         def _sched(self, how, arg, node, prio):
             sim = self.simulator
